@@ -134,3 +134,18 @@ Theorem C20_claim_outputs_sum : forall asset genesis cs proof bv fee_of t,
     create_pegin_input asset genesis cs proof bv = PgOk (input, amount) /\ outs_sum t = amount.
 Proof. exact claim_outputs_sum. Qed.
 Print Assumptions C20_claim_outputs_sum.
+
+(* ... and a claim is produced exactly when the amount is a non-negative int64 and the fee does not exceed it *)
+Theorem C20_claim_succeeds_iff : forall asset genesis cs proof bv fee_of input amount,
+  create_pegin_input asset genesis cs proof bv = PgOk (input, amount) ->
+  (exists t, claim asset genesis cs proof bv fee_of = PgOk t) <->
+  (amount < 0x8000000000000000 /\ claim_fee input asset cs amount fee_of <= amount).
+Proof. exact claim_succeeds_iff. Qed.
+Print Assumptions C20_claim_succeeds_iff.
+
+Theorem C20_claim_refuses_excess_fee : forall asset genesis cs proof bv fee_of input amount,
+  create_pegin_input asset genesis cs proof bv = PgOk (input, amount) ->
+  amount < claim_fee input asset cs amount fee_of ->
+  claim asset genesis cs proof bv fee_of = PgErr.
+Proof. exact claim_refuses_excess_fee. Qed.
+Print Assumptions C20_claim_refuses_excess_fee.
